@@ -202,9 +202,13 @@ PLAN["C05"] = {
               # sequential sweeps: requested capacities 1..40 (rounded up; SCQ cache-line remapping from 8), ring sizes 2..64, three laps
               run("sweep", "nb", c=0, opt={"maxn": 40, "laps": 3, "maxcap": 40}, weight=0.1), run("sweep", "nb_p0", c=0, opt={"maxn": 40, "laps": 3, "maxcap": 40}, weight=0.1),
               run("sweep", "vb", c=0, opt={"maxn": 70, "laps": 3}, weight=0.1),
+              # element identity with owning / non-trivial element types (seed C05c: slot handed back before the moved-from element is destroyed)
+              run("ownership", "nb_c1_up", c=2, weight=0.5), run("ownership", "nb_c2_up", c=2, weight=0.5), run("ownership", "nb_c2_val", c=2, weight=0.5),
+              run("ownership", "vb_s2_up", c=2, weight=0.3), run("ownership", "vb_s2_val", c=2, weight=0.3),
               # concurrent runs on a ring with remapped indexes (capacity 8)
               run("bounded", "nikolaev", c=1, opt={"cap": 8, "prefill": 7}, weight=0.3), run("bounded", "nikolaev", c=1, opt={"cap": 8, "prefill": 0, "wrap": 9}, weight=0.3)],
-    "thorough": [run("sweep", "nb", c=0, opt={"maxn": 70, "laps": 4, "maxcap": 130}, weight=0.3), run("sweep", "nb_p0", c=0, opt={"maxn": 70, "laps": 4, "maxcap": 130}, weight=0.3),
+    "thorough": [run("ownership", t, c=3, weight=2) for t in ["nb_c1_up", "nb_c2_up", "nb_c2_val", "vb_s2_up", "vb_s2_val"]] + [run("ownership", "nb_c2_up", c=2, opt={"T": 3, "m": 1, "prefill": 1})] + [
+                 run("sweep", "nb", c=0, opt={"maxn": 70, "laps": 4, "maxcap": 130}, weight=0.3), run("sweep", "nb_p0", c=0, opt={"maxn": 70, "laps": 4, "maxcap": 130}, weight=0.3),
                  run("sweep", "vb", c=0, opt={"maxn": 140, "laps": 4, "maxlog": 6}, weight=0.2),
                  run("bounded", "nikolaev", c=2, opt={"cap": 8, "prefill": 7}), run("bounded", "nikolaev", c=2, opt={"cap": 8, "prefill": 0, "wrap": 9}), run("bounded", "nikolaev", c=2, opt={"cap": 16, "prefill": 15, "wrap": 3}),
                  run("bounded", "vyukov_api", c=2, opt={"cap": 2}), run("bounded", "vyukov_dw", c=2, opt={"cap": 2}), run("bounded", "vyukov_api", c=2, opt={"cap": 4, "wrap": 5}),
